@@ -58,6 +58,10 @@ def cases(shard, tier):
         for late in ('header-id-edited', 'origin-file-id-edited', 'both-edited-alike', 'both-edited-alike-74-chars',
                      'sequence-number-edited', 'sequence-number-edited-11-digits'):
             yield {'header': {'seq': 1, 'idlen': 8, 'ident': '0', 'nlf': 1, 'late': late}}
+        # every data record comes after the set that defines the object it belongs to - also when a later call into
+        # that set was refused because of its name
+        for kind in ('no_format', 'frame'):
+            yield {'header': {'seq': 1, 'idlen': 8, 'ident': '0', 'nlf': 1, 'defined_before_data': kind}}
         # identifier contents: digits only, blanks at either end, lower case, punctuation (must stay left-justified)
         for idtext in ('20240917', '7', '001', ' LEADING-BLANK', 'TRAILING-BLANK ', 'mixed Case 12', '-', '1e5', '+42'):
             for seq in (1, 7777777777):
@@ -93,6 +97,39 @@ def run_case(case):
         hd = case['header']
         sp = header_spec(hd)
         valid = 1 <= hd['seq'] and hd['seq'] + hd['nlf'] - 1 <= 9999999999 and hd['idlen'] <= 65 and len(hd['ident']) == 1
+        if hd.get('defined_before_data'):
+            k = hd['defined_before_data']
+            if k == 'no_format':
+                sp['ops'] += [S.op_add('no_format', 'NF', 'NOFORMAT'),
+                              {'op': 'nfdata', 'lf': 'L0', 'nf': 'NF', 'data': 'some text'},
+                              S.op_add('no_format', 'RJ', 5, expect='raise')]
+            else:
+                sp['ops'] += [S.op_add('channel', 'CX', 'EXTRA', data=S.arr_spec('uint8', [2], [8, 9])),
+                              S.op_add('frame', 'RJ', 5, expect='raise', channels=[{'$ref': 'CX'}]),
+                              S.op_add('frame', 'FX', 'EXTRA-FRAME', channels=[{'$ref': 'CX'}])]
+            res = S.run_spec(sp)
+            if res['failed_at'] is not None or res['write'] != 'ok':
+                why = res['status'][-1] if res['failed_at'] is not None else res['write']
+                return Outcome('raised', [("C09:defined-before-data:valid-rejected", f"{why} | {hd}")], True)
+            try:
+                lf = R.split_logical_files(R.parse_physical(res['data']))[0]
+                m = M.Model(sp)
+                defined = set()
+                for _, r, st in lf.records:
+                    if r.is_eflr:
+                        if st is not None and st.type in ('FRAME', 'NO-FORMAT'):
+                            defined |= {o.name for o in st.objects}
+                    else:
+                        ref, _ = R.decode_obname(r.body, 0)
+                        if ref not in defined:
+                            viol.append(("C09:data_before_definition", f"data record refers to {ref}, not defined by an earlier "
+                                                                       f"FRAME / NO-FORMAT set ({sorted(map(str, defined))}) | {hd}"))
+                            break
+                for code, d in M.check_header_and_order(m, m.lfs[0], lf):
+                    viol.append((f"C09:{code}", f"{d[:300]} | {hd}"))
+            except R.FormatError as e:
+                viol.append((f"C09:unparsable:{e.code}", f"{e} | {hd}"))
+            return Outcome('defined-before-data', viol, True, digest=sha(res['data']))
         if hd.get('late'):
             new_id = 'EDITED-ID' if '74' not in hd['late'] else 'X' * 74
             if hd['late'].startswith(('header-id-edited', 'both-edited-alike')):
